@@ -44,7 +44,8 @@ CAUSES = {
     "accepted": ["eof", "rst"],
     # "close-silent": local close, the peer keeps the connection but never answers the DPR
     # "eof-partial": the peer goes away in the middle of a message (a few bytes of it arrive, then the FIN)
-    "open-idle": ["close", "dpr", "eof", "rst", "close-silent", "eof-partial"],
+    # "close-chatty": the same, and the peer goes on sending watchdog requests (more often than the watchdog timeout)
+    "open-idle": ["close", "dpr", "eof", "rst", "close-silent", "close-chatty", "eof-partial"],
     "open-inbound": ["close", "dpr", "eof"],
     "open-outbound": ["close", "dpr", "eof", "rst"],
     "open-consumer": ["close", "dpr", "eof", "rst", "eof-partial"],
@@ -64,7 +65,7 @@ class Termination(explore.Scenario):
 
     def __init__(self, **params):
         super().__init__(**params)
-        if params.get("cause") == "close-silent":
+        if params.get("cause") in ("close-silent", "close-chatty"):
             self.idle_window = 40.0      # nothing happens while the node waits for the DPA that never comes
 
     def driver(self, rt):
@@ -72,7 +73,7 @@ class Termination(explore.Scenario):
         role, life, cause = P["role"], P["life"], P["cause"]
         obs = rt.observations
         T = shims.Thread
-        n = node.Node(rt, role, watchdog=(4 if cause == "close-silent" else 30), transport=P.get("transport", "tcp"))
+        n = node.Node(rt, role, watchdog=(4 if cause in ("close-silent", "close-chatty") else 30), transport=P.get("transport", "tcp"))
         d = n.diameter
         obs.update(reached=False, consumer_returned=None, restart=None)
         consumer_out = {}
@@ -293,6 +294,15 @@ class Termination(explore.Scenario):
                         dprs = [m for m in node.split_stream(n.peer.received())[0] if node.header_of(m)["code"] == 282]
                         h = node.header_of(dprs[-1])
                         n.peer.send(node.dpa(h["hbh"], h["e2e"]))
+            elif cause == "close-chatty":
+                d.close()
+                for i in range(24):
+                    if n.peer.conn.node_closed:
+                        break
+                    n.peer.send(node.dwr(0x0e200000 + i, 0x0f200000 + i))
+                    n.settle(1.0)
+                # 24 s of chatter against a 4 s watchdog timeout: the node has stopped waiting for the DPA long ago
+                obs["chatty_state"] = n.state()
             elif cause == "close-silent":
                 d.close()
                 n.settle(3 * 4 + 6.0)
@@ -363,6 +373,10 @@ class Termination(explore.Scenario):
             stuck = [f"{n}@{w}" for n, st, w, lib in rt.final_states if st != "done" and w and "sleep" not in w and "select" not in w]
             return [(f"C08:{rt.verdict}:{shape}", f"execution ended in {rt.verdict} before quiescence; blocked: {stuck}; "
                                                   f"locks: {rt.final_locks}")]
+        if P["cause"] == "close-chatty" and obs.get("chatty_state") != "Closed":
+            errs.append((f"C08:not-closed-while-peer-talks:{shape}",
+                         f"state is {obs.get('chatty_state')} 24 s after close() (WATCHDOG_TIMEOUT 4 s): the peer never answers "
+                         f"the DPR but keeps sending watchdog requests"))
         if after["state"] != "Closed":
             errs.append((f"C08:not-closed:{shape}", f"state is {after['state']} after the connection ended ({P['cause']} at {P['life']})"))
         if after["threads_alive"]:
